@@ -649,13 +649,58 @@ def sign_nonneg(expr):
     """Float-robust sign domain (DESIGN §2.9 A1): True when the expression is non-negative BY CONSTRUCTION — a sum with
     non-negative coefficients of products of factors each of which is non-negative (entries of inputs declared non-negative,
     sizes, abs(.), clip(., lo >= 0, .), even powers, square roots / inverses of such) — facts that survive IEEE rounding."""
+    return _sign_nonneg(expr, 0)
+
+
+def collect_like_terms(expr):
+    """sum the coefficients of syntactically identical terms (same bound variables and factors)"""
+    acc, order = {}, []
+    for t in expr.terms:
+        k = (tuple(sorted(t.bound)), t.facs)
+        if k not in acc:
+            acc[k] = [Fraction(0), t]
+            order.append(k)
+        acc[k][0] += t.coef
+    return Expr([Term(acc[k][0], acc[k][1].bound, acc[k][1].facs) for k in order if acc[k][0] != 0])
+
+
+def _sign_nonneg(expr, depth):
+    expr = collect_like_terms(expr)
+    bad = False
     for t in expr.terms:
         if t.coef < 0:
-            return False
+            bad = True
+            break
         for a, e in t.facs:
             if not _atom_nonneg(a, e):
                 return False
-    return True
+    if not bad:
+        return True
+    # x·(1 − ind) + y·ind (what an item assignment into a region leaves behind): case split on a 0/1-valued atom (Kronecker delta, range indicator) that
+    # only occurs outside sums - entry by entry it is either 0 or 1, and the expression must be non-negative by construction in both cases
+    if depth >= 4:
+        return False
+    cands = []
+    for t in expr.terms:
+        for a, e in t.facs:
+            if a[0] in ("D", "I") and a not in cands:
+                cands.append(a)
+    for a in cands:
+        if any(t.bound and any(b == a for b, _ in t.facs) for t in expr.terms):
+            continue
+        cases = []
+        for val in (0, 1):
+            terms = []
+            for t in expr.terms:
+                if any(b == a for b, _ in t.facs):
+                    if val == 0:
+                        continue
+                    terms.append(Term(t.coef, t.bound, [(b, e) for b, e in t.facs if b != a]))
+                else:
+                    terms.append(t)
+            cases.append(Expr(terms))
+        return all(_sign_nonneg(c, depth + 1) for c in cases)
+    return False
 
 
 def shape_key(expr):
